@@ -2,6 +2,7 @@ import WP.Model.Hist
 import WP.Model.Access
 import WP.Model.Position
 import WP.Model.Admission
+import WP.Model.DynArray
 /-
   Line-protocol driver: one operation per line on stdin, one canonical result line on stdout.
   `ok <fields…>` | `err <ErrorName>` | `bad-op`.  See DESIGN.md Appendix B.
@@ -129,7 +130,69 @@ def bundleLine (bm : List Nat) (toks : List String) : List Nat × String :=
       | .error e => (bm, "err " ++ e.name ++ " " ++ show_ bm)
   | _ => (bm, "bad-op")
 
-partial def loop (h : IO.FS.Stream) (out : IO.FS.Stream) (hist : Option HistState) (bm : List Nat := List.replicate 32 0) : IO Unit := do
+/-- state of the `D` (dynamic tick array) protocol: Anchor-region array, Pinocchio-region array, fixed array, spacing -/
+structure DynState where
+  ad : DynArr
+  pd : DynArr
+  fx : FixArr
+  ts : Nat
+
+def fnv64 (bytes : List Nat) : UInt64 :=
+  bytes.foldl (fun h b => (h ^^^ b.toUInt64) * 0x100000001b3) 0xcbf29ce484222325
+
+def showTick (t : TickData) : String :=
+  s!"{if t.initialized then 1 else 0} {t.net} {t.gross} {t.fgoA} {t.fgoB} {t.rgo.getD 0 0} {t.rgo.getD 1 0} {t.rgo.getD 2 0}"
+
+def dynLine (st : Option DynState) (toks : List String) : Option DynState × String :=
+  match toks, st with
+  | ["new", start, ts], _ =>
+    match start.toInt?, ts.toNat? with
+    | some start, some ts =>
+      (some { ad := DynArr.new start (113 * 88 + 8), pd := DynArr.new start (113 * 88), fx := FixArr.new start, ts := ts }, "ok")
+    | _, _ => (st, "bad-op")
+  | ["upd", tick, ini, net, gross, fa, fb, r0, r1, r2], some s =>
+    match tick.toInt?, b01 ini, net.toInt?, natArgs [gross, fa, fb, r0, r1, r2] with
+    | some tick, some ini, some net, some [gross, fa, fb, r0, r1, r2] =>
+      let u : TickData := { initialized := ini, net := net, gross := gross, fgoA := fa, fgoB := fb, rgo := [r0, r1, r2] }
+      let rp : R DynArr := match slotOf s.pd.start tick s.ts with
+        | .error e => .error e
+        | .ok i => s.pd.updateAtP i u
+      match s.ad.updateTick tick s.ts u, rp, s.fx.updateTick tick s.ts u with
+      | .ok a, .ok p, .ok f =>
+        let used := a.usedLen
+        let ha := fnv64 (a.data.take (used - 60))
+        let hp := fnv64 (p.data.take (p.usedLen - 60))
+        if ha == hp && a.bitmap == p.bitmap then
+          (some { s with ad := a, pd := p, fx := f }, s!"ok bm={a.bitmap} used={used} fnv={ha}")
+        else (some { s with ad := a, pd := p, fx := f }, "model-accessors-differ")
+      | .error e, .error e2, .error e3 =>
+        if e.name == e2.name && e.name == e3.name then (st, "err " ++ e.name) else (st, "model-accessors-differ")
+      | _, _, _ => (st, "model-accessors-differ")
+    | _, _, _, _ => (st, "bad-op")
+  | ["get", tick], some s =>
+    match tick.toInt? with
+    | some tick =>
+      let rp : R TickData := match slotOf s.pd.start tick s.ts with
+        | .error e => .error e
+        | .ok i => s.pd.getAtP i
+      match s.ad.getTick tick s.ts, rp, s.fx.getTick tick s.ts with
+      | .ok t, .ok t2, .ok t3 => if t == t2 && t == t3 then (st, "ok " ++ showTick t) else (st, "model-accessors-differ")
+      | .error e, .error e2, .error e3 =>
+        if e.name == e2.name && e.name == e3.name then (st, "err " ++ e.name) else (st, "model-accessors-differ")
+      | _, _, _ => (st, "model-accessors-differ")
+    | none => (st, "bad-op")
+  | ["next", tick, d], some s =>
+    match tick.toInt?, b01 d with
+    | some tick, some d =>
+      match s.ad.nextInit tick s.ts d, s.fx.nextInit tick s.ts d with
+      | .ok a, .ok f => if a == f then (st, match a with | none => "ok none" | some i => s!"ok {i}") else (st, "model-accessors-differ")
+      | .error e, .error e2 => if e.name == e2.name then (st, "err " ++ e.name) else (st, "model-accessors-differ")
+      | _, _ => (st, "model-accessors-differ")
+    | _, _ => (st, "bad-op")
+  | _, _ => (st, "bad-op")
+
+partial def loop (h : IO.FS.Stream) (out : IO.FS.Stream) (hist : Option HistState) (bm : List Nat := List.replicate 32 0)
+    (dyn : Option DynState := none) : IO Unit := do
   let line ← h.getLine
   if line.isEmpty then return ()
   let toks := (line.trimAscii.toString.splitOn " ").filter (· ≠ "")
@@ -137,16 +200,20 @@ partial def loop (h : IO.FS.Stream) (out : IO.FS.Stream) (hist : Option HistStat
   | "B" :: rest =>
     let (bm', s) := bundleLine bm rest
     out.putStrLn s
-    loop h out hist bm'
+    loop h out hist bm' dyn
+  | "D" :: rest =>
+    let (dyn', s) := dynLine dyn rest
+    out.putStrLn s
+    loop h out hist bm dyn'
   | "H" :: rest =>
     let (hist', s) := histLine hist rest
     out.putStrLn s
-    loop h out hist' bm
+    loop h out hist' bm dyn
   | _ =>
     match stepPure toks with
     | some s => out.putStrLn s
     | none => out.putStrLn "bad-op"
-    loop h out hist bm
+    loop h out hist bm dyn
 
 def driverMain : IO Unit := do
   let out ← IO.getStdout
